@@ -26,7 +26,9 @@ pub const REDUCED: [Edge; 4] = [Edge::None, Edge::Star, Edge::A, Edge::AB];
 
 /// file layout: paths of the N files
 pub fn file_paths(n: usize) -> Vec<PathBuf> {
-    ["/p/f0.graphql", "/p/d/f1.graphql", "/p/d/e/f2.graphql", "/q/f3.graphql", "/p/f4.graphql", "/p/d/f5.graphql", "/f6.graphql", "/q/r/f7.graphql"][..n]
+    // base names repeat across directories, so that one specifier text ("./f.graphql", "../f.graphql")
+    // denotes different files depending on the importing file
+    ["/p/f.graphql", "/p/d/f.graphql", "/p/d/e/f.graphql", "/q/f.graphql", "/p/g.graphql", "/p/d/g.graphql", "/f.graphql", "/q/r/f.graphql"][..n]
         .iter()
         .map(PathBuf::from)
         .collect()
